@@ -80,6 +80,7 @@ type FuncContract struct {
 	// the caller's variables (e.g. sort.SliceStable with this function's comparator)
 	CallSites map[string]*FuncContract
 	Witnesses []ParamDecl // fresh logical values available to the ensures of a call-site contract
+	GhostSets []Let       // ghost assignments executed when the function returns: ghostset g := expr
 }
 
 func (fc *FuncContract) FullKey() string { return fc.Pkg + "::" + fc.Key }
@@ -94,7 +95,7 @@ type Contracts struct {
 	Ghosts map[string]ParamDecl // ghost globals: name -> type
 }
 
-var kwRe = regexp.MustCompile(`^(func|trusted func|pure|inline|pred|specfn|lock|ghost|requires|ensures|modifies|let|loop|invariant|prop|check|opt|axiom|rely|havoc|protects|recv|callsite|witness)\b`)
+var kwRe = regexp.MustCompile(`^(func|trusted func|pure|inline|pred|specfn|lock|ghost|requires|ensures|modifies|let|loop|invariant|prop|check|opt|axiom|rely|havoc|protects|recv|callsite|witness|ghostset)\b`)
 
 func implicit(text string) string { return strings.TrimSpace(text) }
 
@@ -366,6 +367,16 @@ func (cs *Contracts) parseFile(root, file string) error {
 						cur.Modifies = append(cur.Modifies, c)
 					}
 				}
+			case "ghostset":
+				kv := strings.SplitN(d.text, ":=", 2)
+				if len(kv) != 2 {
+					return fmt.Errorf("%s: ghostset g := e", d.pos)
+				}
+				e, err := parseSpecExpr(kv[1])
+				if err != nil {
+					return fmt.Errorf("%s: %v", d.pos, err)
+				}
+				cur.GhostSets = append(cur.GhostSets, Let{Name: strings.TrimSpace(kv[0]), Expr: e, Text: d.text})
 			case "let":
 				kv := strings.SplitN(d.text, ":=", 2)
 				if len(kv) != 2 {
@@ -382,7 +393,7 @@ func (cs *Contracts) parseFile(root, file string) error {
 	return nil
 }
 
-var labelRe = regexp.MustCompile(`^\[([\w\-./]+)\]\s*`)
+var labelRe = regexp.MustCompile(`^\[([\w\-./:]+)\]\s*`)
 
 func parseClause(text, pos string) (Clause, error) {
 	c := Clause{Pos: pos}
